@@ -6,7 +6,7 @@ VERIF=$(cd "$(dirname "$0")/.." && pwd); cd "$VERIF"
 pat=${1:-}
 for f in mutants/*$pat*.diff; do
   b=$(basename "$f" .diff)
-  case "$b" in c01_*) props=C01;; c07_*) props=C07;; c15_*) props=C15;; c18_*) props=C18;; *) props="C07 C15";;  # par_components: correct without a monitor; with monitors its goroutines do leak events into nested calls (C18 reports that, rightly) esac
+  case "$b" in c01_*) props=C01;; c07_*) props=C07;; c15_*) props=C15;; c18_*) props=C18;; *) props="C07 C15";; esac  # par_components: correct without a monitor; with monitors its goroutines do leak events into nested calls (C18 reports that, rightly)
   for p in $props; do
     t0=$(date +%s)
     out=$(./tools/mutant.sh "$f" $p 2>&1); code=$(echo "$out" | grep -o 'exit=[0-9]*' | tail -1)
